@@ -77,6 +77,8 @@ impl<T> Tagged<RcInner<T>> {
         if self.is_null() {
             self
         } else {
+            #[cfg(feature = "circ_verif")]
+            crate::verif::yp(crate::verif::site::ARC_TIMESTAMP);
             self.with_high_tag(global_epoch())
         }
     }
@@ -140,6 +142,8 @@ impl<T: RcObject> AtomicRc<T> {
     /// Panics if `order` is `Release` or `AcqRel`.
     #[inline]
     pub fn load<'g>(&self, order: Ordering, guard: &'g Guard) -> Snapshot<'g, T> {
+        #[cfg(feature = "circ_verif")]
+        crate::verif::yp(crate::verif::site::ARC_LOAD);
         Snapshot::from_raw(self.link.load(order), guard)
     }
 
@@ -150,10 +154,14 @@ impl<T: RcObject> AtomicRc<T> {
     #[inline]
     pub fn store(&self, ptr: Rc<T>, order: Ordering, guard: &Guard) {
         let new_ptr = ptr.ptr;
+        #[cfg(feature = "circ_verif")]
+        crate::verif::yp(crate::verif::site::ARC_STORE_SWAP);
         let old_ptr = self.link.swap(new_ptr.with_timestamp(), order);
         // Skip decrementing a strong count of the inserted pointer.
         forget(ptr);
         unsafe {
+            #[cfg(feature = "circ_verif")]
+            crate::verif::yp(crate::verif::site::ARC_STORE_DEC);
             // Did not use `Rc::drop`, to reuse the given `guard`.
             if let Some(cnt) = old_ptr.as_raw().as_mut() {
                 RcInner::decrement_strong(cnt, 1, Some(guard));
@@ -169,6 +177,8 @@ impl<T: RcObject> AtomicRc<T> {
     #[inline(always)]
     pub fn swap(&self, new: Rc<T>, order: Ordering) -> Rc<T> {
         let new_ptr = new.into_raw();
+        #[cfg(feature = "circ_verif")]
+        crate::verif::yp(crate::verif::site::ARC_SWAP);
         let old_ptr = self.link.swap(new_ptr.with_timestamp(), order);
         Rc::from_raw(old_ptr)
     }
@@ -201,6 +211,8 @@ impl<T: RcObject> AtomicRc<T> {
         let mut expected_raw = expected.ptr;
         let desired_raw = desired.ptr.with_timestamp();
         loop {
+            #[cfg(feature = "circ_verif")]
+            crate::verif::yp(crate::verif::site::ARC_CAS);
             match self
                 .link
                 .compare_exchange(expected_raw, desired_raw, success, failure)
@@ -213,6 +225,8 @@ impl<T: RcObject> AtomicRc<T> {
                 }
                 Err(current_raw) => {
                     if current_raw.ptr_eq(expected_raw) {
+                        #[cfg(feature = "circ_verif")]
+                        crate::verif::yp(crate::verif::site::ARC_CAS_RETRY);
                         expected_raw = current_raw;
                     } else {
                         let current = Snapshot::from_raw(current_raw, guard);
@@ -253,6 +267,8 @@ impl<T: RcObject> AtomicRc<T> {
         let mut expected_raw = expected.ptr;
         let desired_raw = desired.ptr.with_timestamp();
         loop {
+            #[cfg(feature = "circ_verif")]
+            crate::verif::yp(crate::verif::site::ARC_CAS);
             match self
                 .link
                 .compare_exchange_weak(expected_raw, desired_raw, success, failure)
@@ -265,6 +281,8 @@ impl<T: RcObject> AtomicRc<T> {
                 }
                 Err(current_raw) => {
                     if current_raw.ptr_eq(expected_raw) {
+                        #[cfg(feature = "circ_verif")]
+                        crate::verif::yp(crate::verif::site::ARC_CAS_RETRY);
                         expected_raw = current_raw;
                     } else {
                         let current = Snapshot::from_raw(current_raw, guard);
@@ -310,6 +328,8 @@ impl<T: RcObject> AtomicRc<T> {
         let mut expected_raw = expected.ptr;
         let desired_raw = expected_raw.with_tag(desired_tag).with_timestamp();
         loop {
+            #[cfg(feature = "circ_verif")]
+            crate::verif::yp(crate::verif::site::ARC_CAS_TAG);
             match self
                 .link
                 .compare_exchange(expected_raw, desired_raw, success, failure)
@@ -317,6 +337,8 @@ impl<T: RcObject> AtomicRc<T> {
                 Ok(current_raw) => return Ok(Snapshot::from_raw(current_raw, guard)),
                 Err(current_raw) => {
                     if current_raw.ptr_eq(expected_raw) {
+                        #[cfg(feature = "circ_verif")]
+                        crate::verif::yp(crate::verif::site::ARC_CAS_RETRY);
                         expected_raw = current_raw;
                     } else {
                         return Err(CompareExchangeError {
@@ -457,6 +479,8 @@ impl<T: RcObject> Rc<T> {
     #[inline(always)]
     pub fn new(obj: T) -> Self {
         let ptr = RcInner::alloc(obj, 1);
+        #[cfg(feature = "circ_verif")]
+        crate::verif::ev(crate::verif::event::ALLOC, crate::verif::expose(ptr), 0);
         Self {
             ptr: Raw::from(ptr),
             _marker: PhantomData,
@@ -472,6 +496,8 @@ impl<T: RcObject> Rc<T> {
     #[inline(always)]
     pub fn new_many<const N: usize>(obj: T) -> [Self; N] {
         let ptr = RcInner::alloc(obj, N as _);
+        #[cfg(feature = "circ_verif")]
+        crate::verif::ev(crate::verif::event::ALLOC, crate::verif::expose(ptr), 0);
         [(); N].map(|_| Self {
             ptr: Raw::from(ptr),
             _marker: PhantomData,
@@ -487,6 +513,8 @@ impl<T: RcObject> Rc<T> {
     #[inline(always)]
     pub fn new_many_iter(obj: T, count: usize) -> NewRcIter<T> {
         let ptr = RcInner::alloc(obj, count as _);
+        #[cfg(feature = "circ_verif")]
+        crate::verif::ev(crate::verif::event::ALLOC, crate::verif::expose(ptr), 0);
         NewRcIter {
             remain: count,
             ptr: Raw::from(ptr),
@@ -928,5 +956,60 @@ impl<'g, T: RcObject + Debug> Debug for Snapshot<'g, T> {
 impl<'g, T: RcObject> Pointer for Snapshot<'g, T> {
     fn fmt(&self, f: &mut Formatter<'_>) -> std::fmt::Result {
         Pointer::fmt(&self.ptr, f)
+    }
+}
+
+#[cfg(feature = "circ_verif")]
+#[allow(missing_docs)]
+impl<T: RcObject> Rc<T> {
+    /// Address of the block (tags stripped); 0 for null.
+    pub fn verif_addr(&self) -> usize {
+        self.ptr.as_raw() as usize
+    }
+    /// The 4-bit internal timestamp carried by this pointer value.
+    pub fn verif_high_tag(&self) -> usize {
+        self.ptr.high_tag()
+    }
+    /// The count word of the referent.
+    pub fn verif_counts(&self) -> Option<crate::verif::Counts> {
+        if self.ptr.is_null() {
+            None
+        } else {
+            Some(unsafe { crate::verif::counts_at::<T>(self.verif_addr()) })
+        }
+    }
+}
+
+#[cfg(feature = "circ_verif")]
+#[allow(missing_docs)]
+impl<'g, T: RcObject> Snapshot<'g, T> {
+    pub fn verif_addr(&self) -> usize {
+        self.ptr.as_raw() as usize
+    }
+    pub fn verif_high_tag(&self) -> usize {
+        self.ptr.high_tag()
+    }
+    /// The same pointer with another internal timestamp (what a load at another epoch returns).
+    pub fn verif_with_high_tag(self, tag: usize) -> Self {
+        let mut result = self;
+        result.ptr = result.ptr.with_high_tag(tag);
+        result
+    }
+    pub fn verif_counts(&self) -> Option<crate::verif::Counts> {
+        if self.ptr.is_null() {
+            None
+        } else {
+            Some(unsafe { crate::verif::counts_at::<T>(self.verif_addr()) })
+        }
+    }
+}
+
+#[cfg(feature = "circ_verif")]
+#[allow(missing_docs)]
+impl<T: RcObject> AtomicRc<T> {
+    /// (address, user tag, internal timestamp) of the stored word.
+    pub fn verif_peek(&self) -> (usize, usize, usize) {
+        let w = self.link.load(Ordering::SeqCst);
+        (w.as_raw() as usize, w.tag(), w.high_tag())
     }
 }
